@@ -523,6 +523,9 @@ class SelectionProof:
             st.facts |= {("pt", pos, ("EQ", w)), ("seg", lo, pos, ("LE", w)), ("seg", tadd(pos, 1), hi, ("GE", w))}
             st.val[d["l"]] = w
             return True
+        if nm in ("view_mut", "reborrow") and len(t["args"]) == 1 and self.is_self(args[0]) and not d["p"]:
+            st.subview[d["l"]] = (("Z", 0), ("N", 0))          # the whole array as a view
+            return True
         if nm == "slice_axis_mut" and self.is_self(args[0]) and len(t["args"]) == 3:
             sl = t["args"][2]
             sll = sl["pl"]["l"] if sl["k"] in ("move", "copy") and not sl["pl"]["p"] else None
